@@ -51,6 +51,10 @@ pub enum Scen {
     S8,
     /// the same with 330 connections (more than twice the bound)
     S8x,
+    /// a small transfer whose handlers accept any connection error: used with an injected hard socket
+    /// error (the connection driver that meets it ends at once, before the connection has drained);
+    /// a watchdog on the server closes whatever is left after two seconds
+    S9,
 }
 
 impl Scen {
@@ -67,10 +71,11 @@ impl Scen {
             Scen::S7 => "S7",
             Scen::S8 => "S8",
             Scen::S8x => "S8x",
+            Scen::S9 => "S9",
         }
     }
     pub fn parse(s: &str) -> Option<Self> {
-        [Scen::S1, Scen::S1w, Scen::S2, Scen::S3, Scen::S4a, Scen::S4r, Scen::S5, Scen::S6, Scen::S7, Scen::S8, Scen::S8x].into_iter().find(|x| x.name() == s)
+        [Scen::S1, Scen::S1w, Scen::S2, Scen::S3, Scen::S4a, Scen::S4r, Scen::S5, Scen::S6, Scen::S7, Scen::S8, Scen::S8x, Scen::S9].into_iter().find(|x| x.name() == s)
     }
 }
 
@@ -184,11 +189,13 @@ pub struct Spec {
     pub devs: Devs,
     /// receive-offload emulation of the in-memory sockets: (max segments per message, burst delivery)
     pub gro: Option<(usize, bool)>,
+    /// The n-th `UdpSender::poll_send` call of the run fails with a hard I/O error
+    pub send_error: Option<u64>,
 }
 
 impl Spec {
     pub fn new(scen: Scen) -> Self {
-        Self { scen, drop: DropV::None, cancel: None, send_block: None, devs: vec![], gro: None }
+        Self { scen, drop: DropV::None, cancel: None, send_block: None, devs: vec![], gro: None, send_error: None }
     }
     pub fn to_json(&self) -> Value {
         json!({
@@ -199,6 +206,7 @@ impl Spec {
             "send_block": self.send_block,
             "devs": self.devs,
             "gro": self.gro.map(|(s, b)| json!([s, b])),
+            "send_error": self.send_error,
         })
     }
     pub fn from_json(v: &Value) -> Option<Self> {
@@ -212,6 +220,7 @@ impl Spec {
                 .map(|a| a.iter().map(|x| (x[0].as_u64().unwrap_or(0), x[1].as_u64().unwrap_or(0) as u16)).collect())
                 .unwrap_or_default(),
             gro: v["gro"].as_array().map(|a| (a[0].as_u64().unwrap_or(1) as usize, a[1].as_bool().unwrap_or(false))),
+            send_error: v["send_error"].as_u64(),
         })
     }
     pub fn label(&self) -> String {
@@ -1763,8 +1772,92 @@ async fn s8_server_conn(o: Arc<Obs>, inc: Incoming, ep: Endpoint) {
     o.stage("done");
 }
 
+// S9: a transfer that tolerates any connection error (for injected socket errors). A connection driver
+// that meets a hard socket error ends at once and leaves its connection as it is; what the property
+// speaks about is the teardown: every application operation here is raced against a timer, handles are
+// dropped when it expires, and then the endpoints must become idle and both drivers end.
+
+struct Race<A, B> {
+    a: Pin<Box<A>>,
+    b: Pin<Box<B>>,
+}
+
+impl<A: Future, B: Future> Future for Race<A, B> {
+    type Output = Option<A::Output>;
+    fn poll(mut self: Pin<&mut Self>, cx: &mut Context<'_>) -> Poll<Self::Output> {
+        if let Poll::Ready(v) = self.a.as_mut().poll(cx) {
+            return Poll::Ready(Some(v));
+        }
+        if self.b.as_mut().poll(cx).is_ready() {
+            return Poll::Ready(None);
+        }
+        Poll::Pending
+    }
+}
+
+async fn s9_client(o: Arc<Obs>, ep: Endpoint, cc: ClientConfig, saddr: SocketAddr) {
+    let work = {
+        let ep = ep.clone();
+        async move {
+            let connecting = ep.connect_with(cc, saddr, "localhost").map_err(|e| format!("{e:?}"))?;
+            drop(ep);
+            let conn = connecting.await.map_err(|e| cerr(&e))?;
+            let mut s = conn.open_uni().await.map_err(|e| cerr(&e))?;
+            let body = [7u8; 3000];
+            s.write_all(&body).await.map_err(|e| format!("{e:?}"))?;
+            s.finish().map_err(|e| format!("{e:?}"))?;
+            let _ = s.stopped().await;
+            conn.close(VarInt::from_u32(0), b"done");
+            let e = conn.closed().await;
+            Ok::<String, String>(cerr(&e))
+        }
+    };
+    let o2 = o.clone();
+    let r = aw!(o, "cli.work", Race { a: Box::pin(work), b: Box::pin(async move { vsleep(&o2, Duration::from_secs(1)).await }) });
+    match r {
+        Some(Ok(e)) => o.note(&format!("cli_closed:{e}"), 1),
+        Some(Err(e)) => o.note(&format!("cli_error:{e}"), 1),
+        None => o.note("cli_gave_up_after_1s", 1),
+    }
+    aw!(o, "cli.wait_idle", ep.wait_idle());
+    if ep.open_connections() != 0 {
+        o.fail("O3:open-connections-after-idle", format!("wait_idle() returned but open_connections() = {}", ep.open_connections()));
+    }
+    drop(ep);
+    o.stage("done");
+}
+
+async fn s9_server_conn(o: Arc<Obs>, inc: Incoming, _ep: Endpoint) {
+    let work = async move {
+        let conn = inc.into_future().await.map_err(|e| cerr(&e))?;
+        if let Ok(mut r) = conn.accept_uni().await {
+            let _ = r.read_to_end(10_000).await;
+        }
+        let e = conn.closed().await;
+        Ok::<String, String>(cerr(&e))
+    };
+    let o2 = o.clone();
+    let r = aw!(o, "srv.work", Race { a: Box::pin(work), b: Box::pin(async move { vsleep(&o2, Duration::from_secs(2)).await }) });
+    match r {
+        Some(Ok(e)) => o.note(&format!("srv_closed:{e}"), 1),
+        Some(Err(e)) => o.note(&format!("srv_error:{e}"), 1),
+        None => o.note("srv_gave_up_after_2s", 1),
+    }
+    o.stage("done");
+}
+
 async fn accept_loop(o: Arc<Obs>, ep: Endpoint) {
     let mut n = 0u32;
+    if o.scen == Scen::S9 {
+        // the server endpoint is shut down after three seconds, whatever happened
+        let (o2, ep2) = (o.clone(), ep.clone());
+        o.world.clone().spawn_app("srv.watchdog", async move {
+            aw!(o2, "srv.watchdog", vsleep(&o2, Duration::from_secs(3)));
+            ep2.close(VarInt::from_u32(9), b"watchdog");
+            drop(ep2);
+            o2.stage("done");
+        });
+    }
     loop {
         let inc = op!(o, "srv.accept", ep.accept());
         let Some(inc) = inc else { break };
@@ -1800,6 +1893,7 @@ async fn accept_loop(o: Arc<Obs>, ep: Endpoint) {
             Scen::S6 => o.world.spawn_app(&name, s6_server_conn(o2, inc, e2)),
             Scen::S7 => o.world.spawn_app(&name, s7_server_conn(o2, inc, e2)),
             Scen::S8 | Scen::S8x => o.world.spawn_app(&name, s8_server_conn(o2, inc, e2)),
+            Scen::S9 => o.world.spawn_app(&name, s9_server_conn(o2, inc, e2)),
         };
     }
     op!(o, "srv.wait_idle", ep.wait_idle());
@@ -1894,9 +1988,11 @@ pub fn run_spec(base: Instant, spec: &Spec, keep_trace: bool) -> Outcome {
             Scen::S6 => world.spawn_app("cli.main", s6_client(obs.clone(), cep, cc, saddr)),
             Scen::S7 => world.spawn_app("cli.main", s7_client(obs.clone(), cep, cc, saddr)),
             Scen::S8 | Scen::S8x => world.spawn_app("cli.main", s8_client(obs.clone(), cep, cc, saddr)),
+            Scen::S9 => world.spawn_app("cli.main", s9_client(obs.clone(), cep, cc, saddr)),
         };
         drop(rt);
         world.block_send_at(spec.send_block);
+        world.fail_send_at(spec.send_error);
         let devs: BTreeMap<u64, u16> = spec.devs.iter().copied().collect();
         let many = Limits { max_polls: 2_000_000, horizon: LIMITS.horizon };
         world.run(&devs, if matches!(spec.scen, Scen::S8 | Scen::S8x) { &many } else { &LIMITS })
@@ -2046,6 +2142,9 @@ pub fn run_spec(base: Instant, spec: &Spec, keep_trace: bool) -> Outcome {
     let tb = world.max_timer_batch.load(std::sync::atomic::Ordering::Relaxed);
     if tb > 0 {
         notes.insert("max_timers_expiring_at_one_instant".into(), tb as i64);
+    }
+    if world.send_errors_fired() > 0 {
+        notes.insert("send_errors_fired".into(), world.send_errors_fired() as i64);
     }
     let out = Outcome {
         points,
